@@ -39,6 +39,7 @@ Grammar (line oriented; `#` starts a comment outside blocks; a block is  <<< ...
       closure `|x| body tokens` [#K] params `|x: T|` ret `(o: U)` <<< ensures text >>>
       replace `old tokens` [#K] => `new text`       (fn-local rewrite, reported)
       sig `old tokens` => `new text`                (rewrite inside the signature only, reported)
+      inherent                                      (R11: method of `impl Trait for T` emitted inside `impl T { }`, reported)
 """
 import re
 
@@ -284,6 +285,10 @@ def parse(path, include_dir=None, part=False):
             cur.replaces.append((tick(0), k, args[i + 1][1]))
         elif kw == "sig":
             cur.sigrewrites.append((tick(0), tick(2)))
+        elif kw == "inherent":
+            # R11: a trait-impl method is emitted as an inherent method of the implementing type (Verus rejects `requires` on trait impls;
+            # used where the trait itself - #[async_trait] - is outside the unit).  Reported.
+            cur.inherent = True
         else:
             raise SpecError("%s:%d: unknown directive %s" % (path, line, kw))
     if not u.name and not part:
